@@ -8,9 +8,9 @@ V = os.path.dirname(os.path.dirname(os.path.abspath(__file__)))
 def sh(cmd):
     return subprocess.run(cmd, shell=True, capture_output=True, text=True)
 WT = "/tmp/seedwt-%d" % os.getpid()
-def wt_make():
+def wt_make(base="HEAD"):
     sh("git -C /repo worktree remove --force %s; rm -rf %s" % (WT, WT))
-    return sh("git -C /repo worktree add -q --detach %s HEAD" % WT).returncode == 0
+    return sh("git -C /repo worktree add -q --detach %s %s" % (WT, base)).returncode == 0
 def wt_drop():
     import hashlib
     sh("git -C /repo worktree remove --force %s; rm -rf %s" % (WT, WT))
@@ -41,7 +41,7 @@ for d in sorted(glob.glob(V + "/seeded/*/")):
         pid = pid[0]
     if not pid:
         rows.append((name, "?", "NO-PROPERTY", "")); continue
-    if not wt_make() or sh("git -C %s apply --whitespace=nowarn %s" % (WT, patch)).returncode != 0:
+    if not wt_make(meta.get("base") or "HEAD") or sh("git -C %s apply --whitespace=nowarn %s" % (WT, patch)).returncode != 0:
         wt_drop(); rows.append((name, pid, "PATCH-DOES-NOT-APPLY", "")); continue
     try:
         c = sh("cd %s && VERIF_REPO=%s ./check %s quick" % (V, WT, pid))
